@@ -51,7 +51,31 @@ def run_plan(plan):
 
     digests, globs, status = [], [global_digest()], []
     for item in plan:
-        if item.get("run", True):
+        if item.get("pause"):
+            # model of this item is stepped for a while, another model is built and run to the
+            # end, then this one is continued: "whatever ran earlier" includes models that ran
+            # while this one was waiting
+            import numpy as np
+            from . import spec as S
+
+            try:
+                m = S.make_model(item["spec"])
+                m.run_model(num_steps=int(item["pause"]["steps"]), initialize_model=True)
+                other = sim.run(item["pause"]["spec"], opts=dict(ledger=False, irr=False), fp_trap=False)
+                m.run_model(till_termination=True, initialize_model=False)
+                r = sim.RunResult()
+                o = m._outputs
+                r.tables = tuple(np.asarray(getattr(x, "values", x), dtype=float)
+                                 for x in (o.water_flux, o.water_storage, o.crop_growth))
+                r.summary = o.final_stats
+                status.append("ok")
+                digests.append(sim.tables_digest(r))
+            except Exception as ex:  # noqa: BLE001
+                info = sim.exc_info(ex)
+                perm = sim.permitted_rejection(info)
+                status.append(("rejected: " if perm else "error: ") + f"{info[0]}: {info[1][:80]}")
+                digests.append(None)
+        elif item.get("run", True):
             r = sim.run(item["spec"], opts=dict(ledger=False, irr=False), fp_trap=False)
             status.append(r.status if r.status == "ok" else f"{r.status}: {r.exc[0]}: {r.exc[1][:80]}")
             digests.append(sim.tables_digest(r) if r.status == "ok" else None)
